@@ -819,7 +819,16 @@ pub const ALL_VRS: &[&[u8; 2]] = &[
     b"AE", b"AS", b"AT", b"CS", b"DA", b"DS", b"DT", b"FL", b"FD", b"IS", b"LO", b"LT", b"OB", b"OD", b"OF", b"OL", b"OV", b"OW", b"PN", b"SH", b"SL", b"SS", b"ST", b"SV", b"TM", b"UC", b"UI", b"UL", b"UN", b"UR", b"US", b"UT", b"UV",
 ];
 
-fn one_text(t: &mut Tape, vr: &[u8; 2]) -> Vec<u8> {
+fn one_text(t: &mut Tape, vr: &[u8; 2], latin1: bool) -> Vec<u8> {
+    if latin1 && matches!(vr, b"LO" | b"PN" | b"SH" | b"ST" | b"LT" | b"UT" | b"UC") && t.chance(1, 2) {
+        // ISO 8859-1 bytes: odd and even counts of non-ASCII characters
+        let xs: [&[u8]; 5] = [b"M\xFCller", b"Zo\xEB", b"Sim\xF5es^Jo\xE3o", b"\xC9", b"na\xEFve caf\xE9"];
+        let mut out = xs[t.below(5) as usize].to_vec();
+        if vr != b"PN" {
+            out.retain(|c| *c != b'^');
+        }
+        return out;
+    }
     let pick = |t: &mut Tape, xs: &[&str]| xs[t.below(xs.len() as u32) as usize].as_bytes().to_vec();
     match vr {
         b"AE" => pick(t, &["STORE-SCP", "A", "AE TITLE 16 CHAR", "X1"]),
@@ -841,7 +850,7 @@ fn one_text(t: &mut Tape, vr: &[u8; 2]) -> Vec<u8> {
     }
 }
 
-fn gen_prim(t: &mut Tape, vr: &[u8; 2], multi_ok: bool) -> Prim {
+fn gen_prim(t: &mut Tape, vr: &[u8; 2], multi_ok: bool, latin1: bool) -> Prim {
     // number of values: 0 (empty), 1, or several
     let n = match t.weighted(&[5, 1, if multi_ok { 3 } else { 0 }]) {
         0 => 1,
@@ -885,7 +894,7 @@ fn gen_prim(t: &mut Tape, vr: &[u8; 2], multi_ok: bool) -> Prim {
                 if i > 0 {
                     out.push(b'\\');
                 }
-                out.extend_from_slice(&one_text(t, vr));
+                out.extend_from_slice(&one_text(t, vr, latin1));
             }
             Prim::Text(out)
         }
@@ -902,6 +911,9 @@ pub struct GenCfg {
     pub encapsulated: bool,
     /// force all sequences / items to undefined length in the model
     pub all_undefined: bool,
+    /// declare Specific Character Set ISO_IR 100 and use Latin-1 text in
+    /// the VRs that follow the declared character set
+    pub latin1: bool,
 }
 
 impl Default for GenCfg {
@@ -912,6 +924,7 @@ impl Default for GenCfg {
             pixel: true,
             encapsulated: true,
             all_undefined: false,
+            latin1: false,
         }
     }
 }
@@ -938,7 +951,7 @@ fn gen_level(t: &mut Tape, depth: u32, cfg: &GenCfg, top: bool) -> Vec<Elem> {
                 els.push(Elem {
                     tag,
                     vr: *e.2,
-                    val: Val::Prim(gen_prim(t, e.2, e.3)),
+                    val: Val::Prim(gen_prim(t, e.2, e.3, cfg.latin1)),
                 });
             }
             1 => {
@@ -994,7 +1007,7 @@ fn gen_level(t: &mut Tape, depth: u32, cfg: &GenCfg, top: bool) -> Vec<Elem> {
                     els.push(Elem {
                         tag,
                         vr: *vr,
-                        val: Val::Prim(gen_prim(t, vr, true)),
+                        val: Val::Prim(gen_prim(t, vr, true, cfg.latin1)),
                     });
                 }
             }
@@ -1009,7 +1022,7 @@ fn gen_level(t: &mut Tape, depth: u32, cfg: &GenCfg, top: bool) -> Vec<Elem> {
                 els.push(Elem {
                     tag,
                     vr: *vr,
-                    val: Val::Prim(gen_prim(t, vr, true)),
+                    val: Val::Prim(gen_prim(t, vr, true, cfg.latin1)),
                 });
             }
         }
@@ -1042,9 +1055,9 @@ fn gen_level(t: &mut Tape, depth: u32, cfg: &GenCfg, top: bool) -> Vec<Elem> {
             };
             Val::Frags { bot, frags }
         } else if t.chance(1, 2) {
-            Val::Prim(gen_prim(t, b"OW", false))
+            Val::Prim(gen_prim(t, b"OW", false, false))
         } else {
-            Val::Prim(gen_prim(t, b"OB", false))
+            Val::Prim(gen_prim(t, b"OB", false, false))
         };
         let vr = match &val {
             Val::Prim(Prim::U16(_)) => *b"OW",
@@ -1054,6 +1067,14 @@ fn gen_level(t: &mut Tape, depth: u32, cfg: &GenCfg, top: bool) -> Vec<Elem> {
             tag: PIXEL_DATA,
             vr,
             val,
+        });
+    }
+    if top && cfg.latin1 {
+        els.retain(|e| e.tag != (0x0008, 0x0005));
+        els.push(Elem {
+            tag: (0x0008, 0x0005),
+            vr: *b"CS",
+            val: Val::Prim(Prim::Text(b"ISO_IR 100".to_vec())),
         });
     }
     els.sort_by_key(|e| e.tag);
